@@ -30,6 +30,30 @@ type Outcome struct {
 	Line    int    `json:"line,omitempty"`
 	Col     int    `json:"col,omitempty"`
 	Msg     string `json:"msg,omitempty"`
+	Raw     error  `json:"-"` // the error value itself (what the caller holds)
+}
+
+// Refresh reads the held error value again.
+func (o Outcome) Refresh() Outcome {
+	if o.Raw == nil {
+		return o
+	}
+	n := fromAnyErr(o.Raw)
+	n.HasTree = o.HasTree
+	return n
+}
+
+// fromAnyErr reads an error value the way the entry point that returned it does: a recovery error reports the
+// structured cause's code and message at the ParseError's own location.
+func fromAnyErr(err error) Outcome {
+	o := fromErr(err)
+	var pe *parser.ParseError
+	if errors.As(err, &pe) && pe.Cause != nil {
+		o = fromErr(pe.Cause)
+		o.Line, o.Col = pe.Line, pe.Column
+		o.Raw = err
+	}
+	return o
 }
 
 // Point is one entry point.
@@ -60,7 +84,7 @@ func fromErr(err error) Outcome {
 		return Outcome{Accept: true}
 	}
 	e := ops.Err(err)
-	return Outcome{Code: e.Code, Struct: e.Struct, Err: err.Error(), Line: e.Line, Col: e.Col, Msg: e.Msg}
+	return Outcome{Code: e.Code, Struct: e.Struct, Err: err.Error(), Line: e.Line, Col: e.Col, Msg: e.Msg, Raw: err}
 }
 
 func tokens(sql string) ([]models.TokenWithSpan, error) {
@@ -89,12 +113,7 @@ var All = []Point{
 	{"gosqlx.ParseWithRecovery", func(s string) Outcome {
 		stmts, errs := gosqlx.ParseWithRecovery(s)
 		if len(errs) > 0 {
-			o := fromErr(errs[0])
-			var pe *parser.ParseError
-			if errors.As(errs[0], &pe) && pe.Cause != nil {
-				o = fromErr(pe.Cause)
-				o.Line, o.Col = pe.Line, pe.Column
-			}
+			o := fromAnyErr(errs[0])
 			o.HasTree = true
 			return o
 		}
